@@ -245,7 +245,8 @@ def dtab_kinds(ctx, prog):
         want = {"Always": ["ret(1)"], "Never": ["ret(0)"], "PartialEq": ["cmp(eq(arg2,arg3))"],
                 "Fn": ["cmp(fnptr(arg2,arg3))"], "FnBoxed": ["cmp(boxed(tuple(arg2, arg3)))"]}
         for (k,), res in sorted(tb.items()):
-            got = dtab.summarize(res)
+            # the comparison's result is the function's result (call writes the return place directly)
+            got = [g.split(" ; ret(call ")[0] for g in dtab.summarize(res)]
             ctx.site(R, F, "%s -> %s" % (k, got))
             if k not in want:
                 ctx.fail(R, "kind:" + k, "new Cutoff variant %s without a specified truth value" % k, fn=F, kind="anchor")
